@@ -22,7 +22,7 @@ META = dict(
     min_events={'quick': {'substitutions_checked': 40000, 'substitutions_changing': 10000, 'attribute_sets_checked': 8000,
                           'unquantify_checked': 2000, 'negative_checked': 5000},
                 'thorough': {'substitutions_checked': 1500000, 'substitutions_changing': 300000, 'attribute_sets_checked': 120000}},
-    budget=dict(quick=1500, thorough=2400),
+    budget=dict(quick=1500, thorough=7200),
     unit_timeout=dict(quick=900, thorough=3000),
 )
 
